@@ -159,13 +159,22 @@ def norm_col(name):
 
 def answer(sql, dialect):
     r = LineageRunner(sql, dialect=dialect)
-    cols = sorted({(norm_col(str(p[0])), norm_col(str(p[-1]))) for p in r.get_column_lineage()})
+    def nc(c):
+        # owner and name are taken apart on the objects (an expression's text may itself contain dots)
+        owner = str(c.parent).lower() if c.parent is not None else ""
+        name = c.raw_name.lower() if (PLAIN.match(c.raw_name) or c.raw_name == "*") else "<expr>"
+        return owner + "." + name
+
+    cols = sorted({(nc(p[0]), nc(p[-1])) for p in r.get_column_lineage()})
     tabs = [sorted(str(t).lower() for t in getattr(r, k + "_tables")) for k in ("source", "target", "intermediate")]
     return tabs, cols
 
 
 # known findings: (finding id) -> list of (sql, dialect, rewrite name)
-KNOWN = {}
+# D38: sqlparse analyzer + double-quoted keyword-like words (host, segment, summary): quoting changes the answer
+KNOWN = {
+    "D38": [["INSERT INTO tab1 SELECT host FROM tab2 a", "non-validating", "R5 quote lower-case identifiers"], ["WITH summary AS (SELECT * FROM segment) INSERT INTO host SELECT * FROM summary", "non-validating", "R5 quote lower-case identifiers"], ["INSERT INTO host SELECT col1, col2 FROM segment", "non-validating", "R5 quote lower-case identifiers"], ["SELECT col1, col2 FROM segment", "non-validating", "R5 quote lower-case identifiers"]],
+}
 
 
 def main():
@@ -179,19 +188,24 @@ def main():
     corp = harvest_tests()
     if thorough:
         corp += harvest_tpcds()[:10]
-    else:
-        corp = [c for k, c in enumerate(corp) if k % 5 == 0]
     inputs += corp
+    # the sqlparse-based analyzer sees the same texts (generated + every ansi corpus input)
+    inputs += [(q, "non-validating", w) for q, d_, w in list(inputs) if d_ == "ansi"]
+    # quick tier: every input, but only the QUICK_REWRITES whole-text rewrites; single boundaries only on generated statements
+    QUICK_REWRITES = {"R1 newline", "R2 block comment", "R2 line comment", "R3 keywords Capitalised", "R4 identifiers upper", "R6 ;;", "R6 ; /*c*/ ;"}
     fails, evals, nontrivial, skipped = [], 0, 0, 0
     known = {(" ".join(s.split()), d, rw) for v in KNOWN.values() for s, d, rw in v}
+    confirm_inputs = {(" ".join(s_.split()), d_) for s_, d_, _ in KNOWN.get(confirm, [])} if confirm else None
     for sql, dialect, where in inputs:
+        if confirm_inputs is not None and (" ".join(sql.split()), dialect) not in confirm_inputs:
+            continue
         try:
             base = answer(sql, dialect)
         except Exception:
             skipped += 1
             continue
-        variants = [(n, f(sql)) for n, f in REWRITES_ALL]
-        if dialect == "ansi" and "`" not in sql and '"' not in sql:
+        variants = [(n, f(sql)) for n, f in REWRITES_ALL if thorough or n in QUICK_REWRITES]
+        if dialect in ("ansi", "non-validating") and "`" not in sql and '"' not in sql:
             variants.append(("R5 quote lower-case identifiers", r_quote(sql)))
         if where == "D17":
             variants += [("R1 layout inside a dotted reference", sql.replace(".", " . ")), ("R2 comment inside a dotted reference", sql.replace(".", "./*c*/"))]
@@ -200,7 +214,7 @@ def main():
             step_ = max(1, len(g) // 12)
             picks = list(range(0, len(g), step_))[:12]  # at most 12 evenly spaced boundaries per input
         else:
-            picks = rnd.sample(range(len(g)), min(3, len(g)))
+            picks = rnd.sample(range(len(g)), min(2, len(g))) if "/" in where and not where.startswith("tests/") else []
         for k in picks:
             for n, repl in SINGLE:
                 variants.append((f"{n} @gap{k}", at_gaps(sql, {k}, repl)))
